@@ -53,8 +53,11 @@ def db : BibData := dbOf [
 end C14Ex
 open C14Ex
 
-/-- A field the entry defines itself always wins — whatever the database, whatever has been
-followed before, whatever the parents say. -/
+/-- [model wiring]  A field the entry defines itself always wins — whatever the database, whatever
+has been followed before, whatever the parents say.  This is one unfolding of `findField` (its first
+test is `e.fields.getItem name`); the independent statement of "own first" is
+`C14_inherits_nearest` (the reference `SEntry.own` asks the entry's field, then its role, before
+any parent). -/
 theorem C14_own_field_wins (bibData : Option BibData) (visited : List Str) (e : Entry) (name : Str) (v : Str)
     (h : e.fields.getItem name = some v) : findField bibData visited e name = some v := by
   rw [findField_eq]
@@ -82,7 +85,9 @@ theorem C14_inherits_nearest_nonvacuous :
     lookup db.toS (get db "child").toS (s "title") = some (s "T") ∧
     lookup db.toS (get db "Parent").toS (s "title") = none := by decide
 
-/-- Person roles are visible as `" and "`-joined fields (when no field of that name hides them). -/
+/-- [model wiring]  Person roles are visible as `" and "`-joined fields (when no field of that name
+hides them).  One unfolding of `findField` / `findPersonField`; the independent statement (own and
+inherited roles against the reference lookup) is `C14_inherits_nearest`. -/
 theorem C14_person_roles_joined (bibData : Option BibData) (visited : List Str) (e : Entry) (role : Str)
     (persons : List Str) (hf : e.fields.getItem role = none) (hp : e.persons.getItem role = some persons) :
     findField bibData visited e role = some (joinWith Pybtex.andSep persons) := by
@@ -183,10 +188,16 @@ theorem C14_dangling_nonvacuous :
     (dbOf [(s "kid", entry [("crossref", "dang")] []), (s "dang", entry [("crossref", "nowhere")] [])]).addExtraCitations [s "kid"] 1 =
       ([s "kid", s "dang"], [Report.badCrossref (s "dang") (s "nowhere")]) := by decide
 
-/-- Both engines see the same FIELDS: the value a BST program gets from a field variable
-(`Field.value`; `missing$` is 1 exactly for `MissingField`) and the value the template node
-`field` gets in the Python engine (whose formatting context now carries the database) are the
-reference lookup — a value on one side iff the same value on the other, missing iff missing.
+/-- [model wiring]  In the model the value a BST program gets from a field variable
+(`bstFieldValue`: `Field.value`; `missing$` is 1 exactly for `MissingField`) and the value the
+template node `field` gets in the Python engine (`pythonEngineField`, whose formatting context now
+carries the database) are THE SAME call `e.findField name (some db)` in two wrappers: conjuncts 3
+and 4 (a value on one side iff the same value on the other, missing iff missing) hold by
+definition, conjuncts 1 and 2 are `C14_inherits_nearest` once more (that one lookup is the
+reference lookup).  The theorem therefore only records the wiring of the model.  That the two
+REAL engines agree — `Field.value` and the template `field` node both call `Entry._find_field`,
+and the formatting context carries `bib_data` — is a modelling decision carried by the
+correspondence check (oracle clause `engines_agree`), not by this theorem.
 (Person ROLES reach the Python styles through the `names` node, the label styles and the
 sorting styles, which do not go through this lookup: `C14_python_names_partial`,
 `C14_python_names_neg`.) -/
